@@ -189,7 +189,7 @@ func runProperty(ctx *Ctx, o *Options, t0 time.Time) int {
 		for _, e := range ex.errs {
 			undecided = append(undecided, fr.key+": "+e)
 		}
-		if ex.retCount == 0 && len(ex.errs) == 0 {
+		if ex.retCount == 0 && len(ex.errs) == 0 && !(ex.contract != nil && ex.contract.NeverReturns) {
 			undecided = append(undecided, fr.key+": vacuity: no return path was reached")
 		}
 		for _, g := range groupObls(ex.obls) {
